@@ -13,6 +13,7 @@ import (
 	"os"
 	"os/exec"
 	"strings"
+	"time"
 
 	"github.com/redis/rueidis"
 	"verifh/fakeredis"
@@ -197,11 +198,25 @@ func Tail(s string, n int) string {
 }
 
 // Option returns a ClientOption whose connections go to the fake server.
+//
+// Outside synctest bubbles (real time) rueidis's own wall-clock limits - Dialer.Timeout (default 5 s, bounds the dial and
+// the handshake) and ConnWriteTimeout (default 10 s, also the PONG deadline of the keep-alive ping) - are raised to two
+// hours: on a loaded machine they fire although nothing is wrong, break the connection and hand "i/o timeout" /
+// "context deadline exceeded" to callers that set no deadline, which no oracle may mistake for a lost reply. Inside a
+// bubble time is virtual and load-independent, so the defaults stay. Drivers that set their own values override these.
 func Option(s *fakeredis.Server, addrs ...string) rueidis.ClientOption {
-	return rueidis.ClientOption{
+	opt := rueidis.ClientOption{
 		InitAddress: addrs,
 		DialCtxFn: func(ctx context.Context, addr string, _ *net.Dialer, _ *tls.Config) (net.Conn, error) {
 			return s.Dial(ctx, addr)
 		},
 	}
+	if !InBubble() {
+		opt.ConnWriteTimeout = 2 * time.Hour
+		opt.Dialer.Timeout = 2 * time.Hour
+	}
+	return opt
 }
+
+// InBubble reports whether the caller runs inside a synctest bubble (whose fake clock starts at 2000-01-01).
+func InBubble() bool { return time.Now().Year() < 2010 }
